@@ -1,5 +1,6 @@
 """C16 - user key-value metadata is kept verbatim; in-place updates touch nothing else."""
 import copy
+import json
 import os
 
 from hypothesis import strategies as st
@@ -102,8 +103,15 @@ def strategy_(draw, thorough):
             updates.append(upd)
     if not updates:
         updates = [{"a": {"s": "b"}}]
-    return {"frame": fr, "opts": opts, "kv": kv, "target": target, "updates": updates,
+    case = {"frame": fr, "opts": opts, "kv": kv, "target": target, "updates": updates,
             "key_as_bytes": draw(st.booleans())}
+    if draw(st.integers(0, 3)) == 0:
+        # DataFrame.attrs travel in the key/value metadata too (key PANDAS_ATTRS), next to the caller's keys
+        case["attrs"] = draw(st.sampled_from([{"a": 1}, {"unit": "m", "n": [1, 2]}, {"é": "ü"}]))
+    if draw(st.integers(0, 7)) == 0:
+        # a last update that removes every key there is, the library's own ones included
+        case["remove_all"] = True
+    return case
 
 
 def strategy(tier):
@@ -135,6 +143,8 @@ def run_case(case):
     with common.Scratch() as d:
         path = os.path.join(d, "t.parq" if opts["file_scheme"] == "simple" else "ds")
         df = cases.build_frame(fr)
+        if case.get("attrs"):
+            df.attrs = json.loads(json.dumps(case["attrs"]))
         cm = {(k.encode("utf8") if case.get("key_as_bytes") else k): _py(v) for k, v in case["kv"].items()}
         try:
             with cases.writer_globals(opts):
@@ -151,6 +161,8 @@ def run_case(case):
         if bad:
             return discard("initial file not clean (C02): " + bad[0].kind, labels)
         model = {_b(k): _b(_py(v)) for k, v in case["kv"].items()}
+        if case.get("attrs"):
+            model[b"PANDAS_ATTRS"] = json.dumps(case["attrs"]).encode("utf8")
         pandas_val = dict((k, v) for k, v in p0.kv).get(b"pandas")
         # written verbatim?
         r = _check_kv(path, target, model, pandas_val, p0, data0, orig, case, reader, IGNORED_KINDS)
@@ -158,7 +170,16 @@ def run_case(case):
             return viol("initial|" + r[0], r[1], labels=labels)
         nt = False
         prev_len = p0.footer_len
-        for si, upd in enumerate(case["updates"]):
+        steps = list(case["updates"])
+        if case.get("remove_all"):
+            steps.append("remove_all")
+        for si, upd in enumerate(steps):
+            if upd == "remove_all":
+                upd = {(k.decode("utf8") if not case.get("key_as_bytes") else k.decode("utf8")): None for k in model}
+                upd["pandas"] = None
+                pandas_val = None
+                case = dict(case, _pandas_removed=True)
+                labels.append("all_keys_removed")
             arg = {k: _py(v) for k, v in upd.items()}
             try:
                 fastparquet.update_file_custom_metadata(target, arg)
@@ -224,7 +245,11 @@ def _check_kv(path, target, model, pandas_val, p0, data0, orig, case, reader, ig
         api[_b(k)] = _b(v) if v is not None else None
     if api != model:
         return ("kv_api", "key_value_metadata %r != model %r" % (_short(api), _short(model)))
-    r = frames_eq.frames_equal(now, orig)
+    if case.get("_pandas_removed"):
+        # without the library's own entry dtypes fall back to what the schema says (categoricals become plain columns)
+        r = frames_eq.frames_equal(now, orig, check_dtype=False, check_categories=False, loose_numbers=True)
+    else:
+        r = frames_eq.frames_equal(now, orig)
     if r:
         return ("content_changed|" + r[0], r[1])
     return None
